@@ -161,7 +161,9 @@ func (_this *interfaceBuilder) BuildFromMedia(ctx *Context, mediaType string, da
 }
 
 func (_this *interfaceBuilder) BuildFromTime(ctx *Context, value compact_time.Time, dst reflect.Value) reflect.Value {
-	if gTime, err := value.AsGoTime(); err == nil {
+	// Only a timestamp has a Go time equivalent: a date or a time of day would come
+	// back as a timestamp of another day or another year.
+	if gTime, err := value.AsGoTime(); err == nil && value.Type == compact_time.TimeTypeTimestamp {
 		dst.Set(reflect.ValueOf(gTime))
 	} else {
 		dst.Set(reflect.ValueOf(value))
